@@ -71,9 +71,11 @@ BadLine(line) ==
 -----------------------------------------------------------------------------
 (* Reading: conditionals, macro recording, parse-time directives.          *)
 
-Frame(b) == [active |-> b, taken |-> b, else |-> FALSE]
-AllActive(c)    == \A i \in 1..Len(c) : c[i].active
-ParentActive(c) == \A i \in 1..(Len(c) - 1) : c[i].active
+\* the conditional stack is a module of its own (Cond.tla; MC_CondMachine checks it for programs of any length)
+Cd == INSTANCE Cond
+Frame(b) == Cd!Frame(b)
+AllActive(c)    == Cd!AllActive(c)
+ParentActive(c) == Cd!ParentActive(c)
 
 InitRead(devs) ==
   [cond |-> << >>, rec |-> "", body |-> << >>, macros |-> << >>, defines |-> {}, equs |-> << >>,
@@ -95,25 +97,24 @@ CondStep(rs, line) ==
       n == Len(c)
   IN
   CASE line.k \in {"if", "ifdef", "ifndef"} ->
-         IF ~AllActive(c)
-         THEN [rs EXCEPT !.cond = Append(c, [active |-> FALSE, taken |-> TRUE, else |-> FALSE])]
+         IF ~Cd!OpenEvaluates(c)
+         THEN [rs EXCEPT !.cond = Cd!Open(c, FALSE)]           \* the condition is not looked at
          ELSE IF line.k = "if"
               THEN LET v == CondValue(rs, line.e) IN
                    IF ~v.ok THEN Fail(rs, line.ln)
-                   ELSE [rs EXCEPT !.cond = Append(c, Frame(~IsZero(v.v)))]
-              ELSE [rs EXCEPT !.cond = Append(c, Frame((line.n \in rs.defines) = (line.k = "ifdef")))]
+                   ELSE [rs EXCEPT !.cond = Cd!Open(c, ~IsZero(v.v))]
+              ELSE [rs EXCEPT !.cond = Cd!Open(c, (line.n \in rs.defines) = (line.k = "ifdef"))]
     [] line.k = "elif" ->
-         IF n = 0 \/ c[n].else THEN Fail(rs, line.ln)
-         ELSE IF ParentActive(c) /\ ~c[n].taken
+         IF ~Cd!ElifOk(c) THEN Fail(rs, line.ln)
+         ELSE IF Cd!ElifEvaluates(c)
               THEN LET v == CondValue(rs, line.e) IN
                    IF ~v.ok THEN Fail(rs, line.ln)
-                   ELSE [rs EXCEPT !.cond[n].active = ~IsZero(v.v), !.cond[n].taken = ~IsZero(v.v)]
-              ELSE [rs EXCEPT !.cond[n].active = FALSE]
+                   ELSE [rs EXCEPT !.cond = Cd!Elif(c, ~IsZero(v.v))]
+              ELSE [rs EXCEPT !.cond = Cd!Elif(c, FALSE)]      \* not its turn: the condition is not looked at
     [] line.k = "else" ->
-         IF n = 0 \/ c[n].else THEN Fail(rs, line.ln)
-         ELSE [rs EXCEPT !.cond[n] = [active |-> ParentActive(c) /\ ~c[n].taken, taken |-> TRUE, else |-> TRUE]]
+         IF ~Cd!ElseOk(c) THEN Fail(rs, line.ln) ELSE [rs EXCEPT !.cond = Cd!Else(c)]
     [] line.k = "endif" ->
-         IF n = 0 THEN Fail(rs, line.ln) ELSE [rs EXCEPT !.cond = SubSeq(c, 1, n - 1)]
+         IF ~Cd!EndifOk(c) THEN Fail(rs, line.ln) ELSE [rs EXCEPT !.cond = Cd!Endif(c)]
 
 ExecStep(rs, line) ==
   CASE BadLine(line) -> Fail(rs, line.ln)     \* a macro parameter without argument, in a line that is assembled
